@@ -20,6 +20,7 @@ type lexTok struct {
 type lexResult struct {
 	toks []lexTok
 	end  int    // l.pos on return
+	from int    // l.start on return (where the pending token begins)
 	next string // name of the state function returned ("" = nil, "?" = undetermined)
 }
 
@@ -85,5 +86,32 @@ func lexRunFrom(p *Prog, fn *ssa.Function, input string, start, pos int, lastSta
 		return res, false
 	}
 	res.end = int(end.I.Int64())
+	res.from = res.end
+	if st := in.Load("p0.start", types.Typ[types.Int]); st.K == KInt && st.I.IsInt64() {
+		res.from = int(st.I.Int64())
+	}
 	return res, ok
+}
+
+// lexAll drives the lexer's state functions over a text the way nextToken
+// does - each state evaluated by lexRunFrom, its result deciding the next -
+// and returns the tokens sent. It stops at the end-of-stream state, after
+// maxStates states, or (ok=false) when a state cannot be evaluated.
+func lexAll(p *Prog, first string, text string, maxStates int) (toks []lexTok, ok bool) {
+	state, last := first, ""
+	start, pos := 0, 0
+	for n := 0; n < maxStates && state != ""; n++ {
+		fn := p.Func("sml", state)
+		if fn == nil {
+			return toks, false
+		}
+		res, ok := lexRunFrom(p, fn, text, start, pos, last)
+		if !ok || res.next == "?" {
+			return toks, false
+		}
+		toks = append(toks, res.toks...)
+		last, state = state, res.next
+		start, pos = res.from, res.end
+	}
+	return toks, true
 }
